@@ -110,8 +110,8 @@ def check_operation(db, func, req_text, kind="A", static_conds=None, assume=None
         extra = [S.parse(a, func, ctx=ctx) for a in (assume or [])]
         if func.get("kind") == "ctor":
             kind = "S"   # an object under construction has no earlier state to preserve
-            for role in ("size",):
-                extra.append(("cmp", "==", T.canonical(role, "this"), T.c(0)))
+            if "size(this)" in P.prog_atoms(prog) or "size(this)" in T.atoms(req):
+                extra.append(("cmp", "==", T.canonical("size", "this"), T.c(0)))
         sites = [nd for nd in P.flatten(prog) if nd[0] == "guard"]
         res.guards = max(res.guards, len(sites))
         for nd in sites:
@@ -139,7 +139,11 @@ def check_operation(db, func, req_text, kind="A", static_conds=None, assume=None
             prog_i = inst_prog(prog, sc)
             req_i = inst(req)
             invs = object_invariants(atoms_i) + vinv + [inst(a) for a in extra]
-            for m in T.models(atoms_i, invs):
+            consts = T.constants_in(req_i, set())
+            for nd in P.flatten(prog_i):
+                if nd[0] in ("guard", "branch"):
+                    T.constants_in(nd[1], consts)
+            for m in T.models(atoms_i, invs, constants=consts):
                 res.models += 1
                 ok = T.truth(req_i, m, math=True)
                 if ok is None:
@@ -192,8 +196,10 @@ def _judge_violating(res, tr, m, kind, choice):
             if ev[0] == "effect" and ev[3]:
                 undecided = True
                 break
-            if ev[0] == "effect" and ev[1] == "maybe":
+            if ev[0] == "effect" and ev[1] == "maybe" and (ev[2].get("opaque") or kind != "A"):
                 undecided = True
+                break
+            if ev[0] == "effect" and ev[1] == "maybe" and kind == "A":
                 break
             if ev[0] == "effect" and ev[1] in forbidden:
                 break
